@@ -8,7 +8,7 @@
    tree-sitter-loader (`Config::load`, `find_all_languages`, `select_language`: assumed to succeed and
    to select the grammar the library is run with), `std::fs::read` + `String::from_utf8` of the two
    input files (assumed readable UTF-8), `Parser::parse` returning `Some`, `std::env::current_dir()
-   .unwrap()`, the `print!` panic when stdout is closed, `--scope` and `RUST_LOG`.  The library calls
+   .unwrap()`, a closed stdout (`print!` panics, JSON on stdout returns an error), `--scope` and `RUST_LOG`.  The library calls
    (`File::from_str`, `ParseError::all`, `File::execute`) and the renderings (`Graph::pretty_print`,
    serde_json pretty text) enter as results supplied by the caller: in the theorems they are universally
    quantified, in the correspondence stream they are obtained by running the library in-process. *)
@@ -66,7 +66,7 @@ Record lib_results := {
   lr_load : load_result;
   lr_parse_errors : N;                                  (* ParseError::all(&tree).len() *)
   lr_exec : bool -> globals -> exec_result;             (* lazy flag, global variables ↦ result *)
-  lr_create_ok : N -> bool;                             (* std::fs::File::create(path) succeeds *)
+  lr_create_ok : N -> bool;                             (* File::create(path)?.write_all(..) succeeds *)
 }.
 
 (* ---- what the process does ---- *)
@@ -103,15 +103,20 @@ Definition cli (o : options) (lib : lib_results) : cli_obs :=
   | ExecErr => cli_fail Exit1
   | ExecOk g =>
       if o_json o then                                          (* :146-152 *)
-        (* graph.display_json(output_path).unwrap_or(()) : an io::Error is DISCARDED *)
+        (* graph.display_json(output_path).with_context(..)? : an io::Error is returned from main *)
         match o_output o with
         | None => cli_done (SJson g) FNothing
         | Some p => if lr_create_ok lib p then cli_done SNothing (FJson g)
-                    else cli_done SNothing FNothing
+                    else cli_fail Exit1
         end
       else if negb (o_quiet o) then cli_done (SPretty g) FNothing
       else cli_done SNothing FNothing
   end end end.
+
+(* the JSON has to go into a file that cannot be created / written (then `?` returns the io::Error) *)
+Definition output_blocked (o : options) (lib : lib_results) : bool :=
+  if o_json o then match o_output o with Some p => negb (lr_create_ok lib p) | None => false end
+  else false.
 
 Definition with_quiet (q : bool) (o : options) : options :=
   {| o_lazy := o_lazy o; o_json := o_json o; o_output := o_output o; o_quiet := q;
